@@ -33,6 +33,34 @@ theorem familyOf_v6 (ip : Bytes) (h : IsV6 ip) : familyOf ip = (2, 128) := by
 theorem countOpt_append (a b : List RR) : countOpt (a ++ b) = countOpt a + countOpt b := by
   simp [countOpt, List.filter_append]
 
+theorem foldl_min_spec : ∀ (rest : List Nat) (t : Nat),
+    let r := rest.foldl (fun ttl x => if ttl > x then x else ttl) t
+    (r = t ∨ r ∈ rest) ∧ r ≤ t ∧ ∀ x ∈ rest, r ≤ x := by
+  intro rest
+  induction rest with
+  | nil => intro t; simp
+  | cons y ys ih =>
+    intro t
+    simp only [List.foldl_cons]
+    have h := ih (if t > y then y else t)
+    simp only at h
+    obtain ⟨h1, h2, h3⟩ := h
+    refine ⟨?_, ?_, ?_⟩
+    · rcases h1 with h1 | h1
+      · by_cases hc : t > y
+        · simp only [hc, if_true] at h1 ⊢; right; rw [h1]; exact List.mem_cons_self ..
+        · simp only [hc, if_false] at h1 ⊢; left; exact h1
+      · right; exact List.mem_cons_of_mem _ h1
+    · by_cases hc : t > y
+      · simp only [hc, if_true] at h2 ⊢; omega
+      · simp only [hc, if_false] at h2 ⊢; exact h2
+    · intro x hx
+      rcases List.mem_cons.mp hx with rfl | hx
+      · by_cases hc : t > x
+        · simp only [hc, if_true] at h2 ⊢; exact h2
+        · simp only [hc, if_false] at h2 ⊢; omega
+      · exact h3 x hx
+
 /-- an 8193-byte body for the oversize witness -/
 def bigBody : Bytes := List.replicate 8193 0
 theorem bigBody_length : bigBody.length = 8193 := List.length_replicate ..
